@@ -83,6 +83,11 @@ def run_one(keys, mwname, make, acc, rank=None):
         if [canon(b) for b in out.blocks[1:]] != other_before:
             bad("other_blocks_untouched", "changed", "unchanged")
             continue
+        # exactly the entry's fields: the field carrying value v<i> is the one from source line i (mk())
+        lines = [(f.value, f.start_line) for f in e.fields if not (isinstance(f.value, str) and f.value[:1] == "v" and f.value[1:].isdigit() and f.start_line == int(f.value[1:]))]
+        if lines:
+            bad("fields_keep_their_line", lines, "start_line i for the field whose value is v<i>")
+            continue
         if mwname == "normalize":
             lows = [k.lower() for k, _ in src]
             first_order = list(dict.fromkeys(lows))
